@@ -8,7 +8,8 @@ package main
 // Oracle (oracle_retro.go): exact retrograde solution of the whole reachable game graph for
 // small configurations, bounded exhaustive search (one-sided) for larger positions.
 // Failure classes: proven-but-not-won, disproven-but-won, proven-move-loses (prefixed with
-// attacker-not-mover- when the configured DFPN attacker is not the side to move), solver-panic.
+// attacker-not-mover- when the configured DFPN attacker is not the side to move, with finished-root- when the root is a
+// finished game), solver-panic, solver-no-result, reused-solver-wrong-verdict, reused-solver-panic.
 
 import (
 	"bytes"
@@ -20,6 +21,7 @@ import (
 	"log"
 	"math/rand"
 	"os"
+	"runtime/debug"
 	"strconv"
 	"strings"
 	"sync"
@@ -50,8 +52,11 @@ type c06job struct {
 	g        *retroGraph // nil: bounded exhaustive search
 	gi       int
 	hunt     bool
+	seq      []*tak.Position // kind "dfpnseq": one solver proves these in a row
+	seqG     []*retroGraph
 	bigModel bool // follow-up run on a root where repetition was seen: larger model budget
 	rep      int  // DFPN: threefold repetitions met by this run
+	work     uint64
 	modelOK  bool // eligible for the model comparison (cost permitting)
 
 	// results
@@ -82,6 +87,9 @@ func attStr(c tak.Color) string {
 }
 
 func (j *c06job) input() string {
+	if j.kind == "dfpnseq" {
+		return fmt.Sprintf("dfpnseq;%d positions;%d %s", len(j.seq), j.entries, attStr(j.attacker))
+	}
 	if j.kind == "pn" {
 		s := fmt.Sprintf("pn;%s;%d %d %d", enc(j.root), j.maxNodes, b2i(j.preserve), j.maxDepth)
 		if j.pn2 {
@@ -98,8 +106,80 @@ const (
 	c06MaxModelWork     = 60
 )
 
+// runSeq: one DFPN solver used for several positions in a row (mixed sides to move, mixed board sizes).  Every
+// verdict is judged like that of a fresh solver; a failure that a fresh solver does not show on the same position
+// is reported as reused-solver-wrong-verdict.
+func (j *c06job) runSeq() {
+	encs := make([]string, len(j.seq))
+	for i, p := range j.seq {
+		encs[i] = enc(p)
+	}
+	in := fmt.Sprintf("dfpnseq;%s;%d %s", strings.Join(encs, "@"), j.entries, attStr(j.attacker))
+	var l1s, l2s []string
+	costOK := true
+	var fails []string
+	panicked, msg := safely(func() {
+		if os.Getenv("C06_STACK") != "" {
+			defer func() {
+				if e := recover(); e != nil {
+					for _, q := range j.seq {
+						ws, wc, bs, bc := tak.VerifReserves(q)
+						fmt.Fprintf(os.Stderr, "SEQ %s reserves %d %d %d %d\n", ptn.FormatTPS(q), ws, wc, bs, bc)
+					}
+					fmt.Fprintf(os.Stderr, "entries %d attacker %s\n%v\n%s\n", j.entries, attStr(j.attacker), e, debug.Stack())
+					os.Exit(3)
+				}
+			}()
+		}
+		d := prove.NewDFPN(&prove.DFPNConfig{Attacker: j.attacker, TableMem: int64(j.entries) * c06EntrySize})
+		for i, p := range j.seq {
+			r, st := d.Prove(p)
+			att := j.attacker
+			if att == tak.NoColor {
+				att = p.ToMove()
+			}
+			l1 := verdictStr(r.Result) + " " + encMove(r.Move)
+			l1s = append(l1s, l1)
+			l2s = append(l2s, fmt.Sprintf("%d %d %d %d %d %d %d %d", r.Proof, r.Disproof, st.Work, st.Repetition, st.Terminal, st.Solved, st.Hits, st.Miss))
+			if st.Work > c06MaxModelWork {
+				costOK = false
+			}
+			j.stats["reused_solver_calls"]++
+			j.stats["verdict_reused_"+verdictStr(r.Result)]++
+			one := &c06job{kind: "dfpn", root: p, g: j.seqG[i], entries: j.entries, attacker: j.attacker, stats: j.stats}
+			one.judge(fmt.Sprintf("%s (call %d of the sequence)", in, i+1), r, att, l1)
+			for _, f := range one.out {
+				// the same position on a fresh solver
+				fresh := &c06job{kind: "dfpn", root: p, g: j.seqG[i], entries: j.entries, attacker: j.attacker, stats: map[string]int64{}}
+				fr, _ := prove.NewDFPN(&prove.DFPNConfig{Attacker: j.attacker, TableMem: int64(j.entries) * c06EntrySize}).Prove(p)
+				fresh.judge("fresh", fr, att, "")
+				if len(fresh.out) == 0 {
+					parts := strings.SplitN(f, " | ", 2)
+					f = "ORACLE-FAIL reused-solver-wrong-verdict | " + parts[1] + " [a fresh solver answers " + verdictStr(fr.Result) + "]"
+				}
+				fails = append(fails, f)
+			}
+		}
+	})
+	if panicked {
+		j.out = append(j.out, fmt.Sprintf("ORACLE-FAIL reused-solver-panic | %s | panic in call %d of the sequence: %s | a verdict", in, len(l1s)+1, strings.ReplaceAll(msg, "|", "/")))
+		return
+	}
+	j.l1, j.l2 = strings.Join(l1s, " , "), strings.Join(l2s, " , ")
+	if j.modelOK && costOK {
+		j.out = append(j.out, fmt.Sprintf("CASE %s | %s | %s", in, j.l1, j.l2))
+	} else {
+		j.stats["oracle_only_runs"]++
+	}
+	j.out = append(j.out, fails...)
+}
+
 func (j *c06job) run() {
 	j.stats = map[string]int64{}
+	if j.kind == "dfpnseq" {
+		j.runSeq()
+		return
+	}
 	var res prove.ProofResult
 	var l2 string
 	var attacker tak.Color
@@ -124,6 +204,7 @@ func (j *c06job) run() {
 			l2 = fmt.Sprintf("%d %d %d %d %d %d %d %d", r.Proof, r.Disproof, st.Work, st.Repetition, st.Terminal, st.Solved, st.Hits, st.Miss)
 			costOK = st.Work <= c06MaxModelWork || (j.bigModel && st.Work <= 8*c06MaxModelWork)
 			j.rep = int(st.Repetition)
+			j.work = st.Work
 			j.stats["dfpn_work_total"] += int64(st.Work)
 			if st.Repetition > 0 {
 				j.stats["dfpn_runs_with_repetition"]++
@@ -219,6 +300,18 @@ func (j *c06job) judge(in string, res prove.ProofResult, attacker tak.Color, l1 
 		if w, c := forcedWin(j.root, defender, depth, &budget); c && w {
 			fail("proven-but-not-won", l1, fmt.Sprintf("defender %s wins by force within %d plies", attStr(defender), depth))
 			return
+		}
+		// a DFPN proof found with w calls of mid is a win within w+1 plies (each call goes one ply down, the
+		// immediate-threat shortcut adds one)
+		if j.kind == "dfpn" && j.work <= 3 {
+			b2 := 4000000
+			if w, c := forcedWin(j.root, attacker, int(j.work)+1, &b2); c {
+				j.stats["bounded_dfpn_proven_confirmed_exactly"]++
+				if !w {
+					fail("proven-but-not-won", l1, fmt.Sprintf("no forced win for %s within %d plies (exhaustive), but the search made only %d calls", attStr(attacker), j.work+1, j.work))
+					return
+				}
+			}
 		}
 		// a PN proof tree of depth D is a win within D plies
 		if j.kind == "pn" && res.Depth <= 5 {
@@ -328,6 +421,31 @@ func runC06(c *ctx) {
 		return
 	case "replay":
 		c06replay(c)
+		return
+	case "tpsseq": // runimpl C06 tpsseq <seed> <entries> <N|W|B> "<tps>" "<tps>" ...: one DFPN solver, the positions in a row
+		j := &c06job{kind: "dfpnseq", modelOK: true}
+		j.entries, _ = strconv.Atoi(c.args[0])
+		switch c.args[1] {
+		case "W":
+			j.attacker = tak.White
+		case "B":
+			j.attacker = tak.Black
+		}
+		for _, t := range c.args[2:] {
+			p, err := ptn.ParseTPS(t)
+			if err != nil {
+				fmt.Fprintln(os.Stderr, err)
+				os.Exit(2)
+			}
+			j.seq = append(j.seq, p)
+			j.seqG = append(j.seqG, nil)
+		}
+		j.root = j.seq[0]
+		j.run()
+		for _, l := range j.out {
+			c.printf("%s\n", l)
+		}
+		c.printf("SAMPLE result: %s | %s\n", j.l1, j.l2)
 		return
 	case "tps": // runimpl C06 tps <seed> "<tps>" pn <maxnodes> <preserve> <maxdepth> [pn2] | dfpn <entries> <N|W|B>
 		p, err := ptn.ParseTPS(c.args[0])
@@ -472,23 +590,40 @@ func runC06(c *ctx) {
 
 	// larger positions: default reserves, near the end of road races; one-sided oracle.
 	// DFPN has no node limit, so it only gets positions with a short forced result.
-	nbig := 40 * c.scale
+	nbig := 60 * c.scale
+	var bigSolved []*tak.Position // large positions with a short forced result: usable by DFPN (no node limit)
 	for k := 0; k < nbig; {
 		size := 4 + c.r.Intn(2)
 		cfg := tak.Config{Size: size}
-		ps, _ := randomGame(c.r, cfg, 6+c.r.Intn(14), 4, false)
-		p := ps[len(ps)-1]
-		if over, _ := p.GameOver(); over {
-			if len(ps) < 4 {
+		var p *tak.Position
+		if k%3 == 2 {
+			// constructed around the capstone-in-the-gap pattern (5x5: capstones and walls present)
+			p, _ = c06capPattern(c.r, 5, 0)
+			if p == nil {
 				continue
 			}
-			p = ps[len(ps)-2-c.r.Intn(2)]
+			c.stat("big_constructed_capstone_pattern", 1)
+		} else {
+			ps, _ := randomGame(c.r, cfg, 6+c.r.Intn(14), []int{4, 2, 4}[c.r.Intn(3)], false)
+			p = ps[len(ps)-1]
+			if over, _ := p.GameOver(); over {
+				if len(ps) < 4 {
+					continue
+				}
+				p = ps[len(ps)-2-c.r.Intn(2)]
+			}
+		}
+		if p.Caps != 0 {
+			c.stat("big_with_capstone_on_board", 1)
 		}
 		b1, b2 := 300000, 600000
 		w3, _ := forcedWin(p, p.ToMove(), 3, &b1)
 		l4 := false
 		if !w3 {
 			l4, _ = forcedWin(p, p.ToMove().Flip(), 4, &b2)
+		}
+		if w3 || l4 {
+			bigSolved = append(bigSolved, p)
 		}
 		var j *c06job
 		if (w3 || l4) && c.r.Intn(3) != 0 {
@@ -515,6 +650,137 @@ func runC06(c *ctx) {
 		jobs = append(jobs, j)
 		k++
 	}
+	// capstone-in-the-gap pattern (see c06capPattern) with one or two stones left: each root gets its own exactly
+	// solved reachable graph
+	ncap := 36 * c.scale
+	capRoots := make([]*tak.Position, 0, ncap)
+	for k := 0; k < ncap; k++ {
+		size, left := 3, 1+c.r.Intn(2)
+		if k%4 == 3 {
+			size, left = 4, 1
+		}
+		if p, _ := c06capPattern(c.r, size, left); p != nil {
+			capRoots = append(capRoots, p)
+		}
+	}
+	capGraphs := make([]*retroGraph, len(capRoots))
+	{
+		var wg2 sync.WaitGroup
+		sem := make(chan bool, 8)
+		for i := range capRoots {
+			wg2.Add(1)
+			go func(i int) {
+				defer wg2.Done()
+				sem <- true
+				capGraphs[i] = buildRetro(capRoots[i], 700000, 0)
+				<-sem
+			}(i)
+		}
+		wg2.Wait()
+	}
+	for i, root := range capRoots {
+		g := capGraphs[i]
+		if g == nil {
+			c.stat("capstone_pattern_graph_too_large", 1)
+			continue
+		}
+		c.stat("capstone_pattern_roots", 1)
+		c.stat("capstone_pattern_graph_positions", int64(len(g.term)))
+		for x := 0; x < 6; x++ {
+			var j *c06job
+			if x%3 == 2 {
+				j = c.c06pnJob(root, g)
+			} else {
+				j = c.c06dfpnJob(root, g)
+			}
+			j.gi = -1
+			jobs = append(jobs, j)
+		}
+	}
+
+	// the same pattern on 3x3 with the default reserves (DFPN always comes back on 3x3): judged by exhaustive search
+	// to the depth that the number of mid calls allows
+	for k := 0; k < 150*c.scale; k++ {
+		p, x := c06capPattern(c.r, 3, 0)
+		if p == nil {
+			continue
+		}
+		for v := 0; v < 3; v++ {
+			j := c.c06dfpnJob(p, nil)
+			switch v {
+			case 0:
+				j.attacker = x
+			case 1:
+				j.attacker = tak.NoColor
+			}
+			if j.entries < 1024 {
+				j.entries = 1 << 16 // full-size 3x3 games: the search needs its table to come back in time
+			}
+			j.modelOK = v == 0 && k%2 == 0
+			j.gi = -1
+			jobs = append(jobs, j)
+		}
+		c.stat("capstone_pattern_3x3_default_roots", 1)
+	}
+
+	// one solver for a stream of positions: mixed sides to move and mixed board sizes
+	pool := [][]*tak.Position{}
+	poolG := [][]*retroGraph{}
+	for i, s := range specs {
+		if i >= 6 {
+			break
+		}
+		rs := c06roots(c.r, s.cfg, 40*c.scale, 10)
+		gs := make([]*retroGraph, len(rs))
+		for k := range gs {
+			gs[k] = graphs[i]
+		}
+		pool = append(pool, rs)
+		poolG = append(poolG, gs)
+	}
+	if len(bigSolved) > 0 {
+		pool = append(pool, bigSolved)
+		poolG = append(poolG, make([]*retroGraph, len(bigSolved)))
+	}
+	if len(capRoots) > 0 {
+		var rs []*tak.Position
+		var gs []*retroGraph
+		for i, p := range capRoots {
+			if capGraphs[i] != nil {
+				rs = append(rs, p)
+				gs = append(gs, capGraphs[i])
+			}
+		}
+		if len(rs) > 0 {
+			pool = append(pool, rs)
+			poolG = append(poolG, gs)
+		}
+	}
+	for k := 0; k < 400*c.scale; k++ {
+		n := 2 + c.r.Intn(3)
+		j := &c06job{kind: "dfpnseq", modelOK: k%4 == 0}
+		j.entries = []int{4, 64, 1024, 1 << 16}[c.r.Intn(4)]
+		switch c.r.Intn(3) {
+		case 0:
+			j.attacker = tak.White
+		case 1:
+			j.attacker = tak.Black
+		}
+		last := -1
+		for x := 0; x < n; x++ {
+			pi := c.r.Intn(len(pool))
+			if pi == last {
+				pi = (pi + 1 + c.r.Intn(len(pool)-1)) % len(pool) // neighbours in the stream come from different families
+			}
+			last = pi
+			ri := c.r.Intn(len(pool[pi]))
+			j.seq = append(j.seq, pool[pi][ri])
+			j.seqG = append(j.seqG, poolG[pi][ri])
+		}
+		j.root = j.seq[0]
+		jobs = append(jobs, j)
+	}
+
 	c06runJobs(c, jobs)
 
 	// follow-up: the roots on which a DFPN run met a threefold repetition are searched again by PN and DFPN in
@@ -538,6 +804,9 @@ func runC06(c *ctx) {
 			{kind: "dfpn", entries: 4},
 		} {
 			f.root, f.g, f.gi, f.modelOK, f.bigModel, f.hunt = j.root, j.g, j.gi, true, true, true
+			if f.kind == "pn" && len(seen) > 2*c.scale {
+				f.bigModel = false // thousands of expansions cost the model tens of seconds: two such roots per scale unit
+			}
 			again = append(again, f)
 		}
 	}
@@ -697,6 +966,129 @@ func c06runJobs(c *ctx, jobs []*c06job) {
 	c.stat("solver_ms", int64(time.Since(t0)/time.Millisecond))
 }
 
+// c06capPattern builds a position around the pattern "a road of X is one square short, that square holds a capstone
+// (own or enemy), and X has a flat-topped stack next to it that could step onto it if it were not a capstone" -
+// CountThreats must not report that step as a winning threat.  left > 0: the reserves are set to `left` stones each and
+// no capstones (small reachable graph); left = 0: default reserves minus what is on the board.
+func c06capPattern(r *rand.Rand, size int, left int) (*tak.Position, tak.Color) {
+	for try := 0; try < 50; try++ {
+		board := make([][]tak.Square, size)
+		for y := range board {
+			board[y] = make([]tak.Square, size)
+		}
+		x := tak.White
+		if r.Intn(2) == 0 {
+			x = tak.Black
+		}
+		o := x.Flip()
+		horizontal := r.Intn(2) == 0
+		line := r.Intn(size)
+		gap := r.Intn(size)
+		at := func(i int) (int, int) { // i-th square of the line -> (col, row)
+			if horizontal {
+				return i, line
+			}
+			return line, i
+		}
+		for i := 0; i < size; i++ {
+			cx, cy := at(i)
+			if i == gap {
+				capCol := x
+				if r.Intn(2) == 0 {
+					capCol = o
+				}
+				sq := tak.Square{tak.MakePiece(capCol, tak.Capstone)}
+				if r.Intn(3) == 0 && (left == 0 || size > 3) {
+					sq = append(sq, tak.MakePiece([]tak.Color{x, o}[r.Intn(2)], tak.Flat))
+				}
+				board[cy][cx] = sq
+			} else {
+				sq := tak.Square{tak.MakePiece(x, tak.Flat)}
+				if r.Intn(5) == 0 && left == 0 {
+					sq = append(sq, tak.MakePiece(o, tak.Flat))
+				}
+				board[cy][cx] = sq
+			}
+		}
+		// the neighbour of the gap off the line
+		gx, gy := at(gap)
+		nx, ny := gx, gy
+		d := 1
+		if r.Intn(2) == 0 {
+			d = -1
+		}
+		if horizontal {
+			ny += d
+			if ny < 0 || ny >= size {
+				ny = gy - d
+			}
+		} else {
+			nx += d
+			if nx < 0 || nx >= size {
+				nx = gx - d
+			}
+		}
+		nsq := tak.Square{tak.MakePiece(x, tak.Flat)}
+		if r.Intn(3) == 0 && left != 1 {
+			nsq = append(nsq, tak.MakePiece([]tak.Color{x, o}[r.Intn(2)], tak.Flat))
+		}
+		board[ny][nx] = nsq
+		// a few more pieces elsewhere
+		extra := r.Intn(3)
+		if left > 0 && size == 3 {
+			extra = r.Intn(2)
+		}
+		if size >= 5 {
+			extra = 2 + r.Intn(8)
+		}
+		for k := 0; k < extra; k++ {
+			ex, ey := r.Intn(size), r.Intn(size)
+			if len(board[ey][ex]) != 0 {
+				continue
+			}
+			col := []tak.Color{x, o}[r.Intn(2)]
+			kind := tak.Flat
+			if r.Intn(3) == 0 {
+				kind = tak.Standing
+			}
+			board[ey][ex] = tak.Square{tak.MakePiece(col, kind)}
+		}
+		mover := o // mostly the opponent moves first: the pattern is then met in the children of the root
+		if r.Intn(3) == 0 {
+			mover = x
+		}
+		ply := 10 + 2*r.Intn(6)
+		if mover == tak.Black {
+			ply++
+		}
+		cfg := tak.Config{Size: size}
+		if left > 0 {
+			cfg.Pieces, cfg.Capstones = 60, 3
+		} else if size == 3 {
+			cfg.Pieces, cfg.Capstones = 5+r.Intn(2), 1 // the default 3x3 game has no capstone; 10 stones make DFPN slow
+		} else if size == 4 {
+			cfg.Capstones = 1
+		}
+		p, err := tak.FromSquares(cfg, board, ply)
+		if err != nil {
+			continue
+		}
+		if left > 0 {
+			tak.VerifSetRaw(p, byte(left), 0, byte(1+r.Intn(left)), 0, ply)
+		} else {
+			ws, wc, bs, bc := tak.VerifReserves(p)
+			if int(ws)+int(wc) == 0 || int(bs)+int(bc) == 0 || ws > 50 || bs > 50 || wc > 2 || bc > 2 {
+				continue
+			}
+		}
+		if over, _ := p.GameOver(); over {
+			continue
+		}
+		return p, x
+	}
+	return nil, tak.NoColor
+}
+
 // ---------- replay / probe ----------
 
 // c06parse rebuilds a job from the input field of a CASE / ORACLE-FAIL line.
@@ -783,11 +1175,13 @@ func decPosition(s string) (*tak.Position, error) {
 		}
 	}
 	_ = white
+	_, _ = wst, wcp
 	mv, _ := strconv.Atoi(w[6])
-	p, err := tak.FromSquares(tak.Config{Size: size, Pieces: wst, Capstones: wcp, BlackWinsTies: w[1] == "1"}, board, mv)
+	p, err := tak.FromSquares(tak.Config{Size: size, Pieces: 60, Capstones: 3, BlackWinsTies: w[1] == "1"}, board, mv)
 	if err != nil {
 		return nil, err
 	}
+	tak.VerifSetRaw(p, byte(u(2)), byte(u(3)), byte(u(4)), byte(u(5)), mv)
 	if enc(p) != strings.Join(w, " ") {
 		return nil, fmt.Errorf("position does not round-trip: %s", enc(p))
 	}
